@@ -134,6 +134,18 @@ def route_case(ctx, case):
         play = {'bursts': [[('keep_alive', {'keep_alive_id': k})
                             for k in (11, 13, 14)]], 'mode': 'all',
                 'end': 'eof'}
+    pending = bool(case.get('pending_write_error')) and not reset and \
+        origin in ('listener', 'early_listener')
+    if pending:
+        # two faults in one pass of the networking loop: writing a queued
+        # packet fails (the error is deferred until the read phase is over)
+        # and, in that read phase, a listener raises.  The exception that
+        # escapes the listener is the one to dispatch.  The keep-alive that
+        # triggers the listener is sent by the peer at the very moment the
+        # client's write fails (Link.before_send).
+        play = {'bursts': [[('raw', 0x7B, b'u')]], 'mode': 'all',
+                'end': 'silent'}
+        ctx.label('listener_fault_with_write_error_pending')
     spec1 = {'version': version, 'login': login, 'play': play,
              'status': status}
     clean = {'version': version, 'login': [('success',)],
@@ -257,6 +269,19 @@ def route_case(ctx, case):
                 fault['raised'] = True
                 fault['exc'] = drawn
                 raise drawn
+        if pending:
+            from minecraft.networking.packets import Packet as _Packet
+            armed = []
+
+            def arm(p):
+                if p.id == 0x7B and not armed:
+                    armed.append(1)
+                    link0 = world.links[0]
+                    link0.send_error = BrokenPipeError(32, 'Broken pipe')
+                    link0.before_send = lambda: srvs[0].send_item(
+                        ('keep_alive', {'keep_alive_id': 11}))
+                    conn.write_packet(sb.play.ChatPacket(message='x'))
+            conn.register_packet_listener(arm, _Packet, early=True)
         if origin == 'early_listener':
             conn.register_packet_listener(raiser, cb.play.KeepAlivePacket,
                                           early=True)
@@ -486,6 +511,7 @@ def case_strategy():
         'decorator': st.booleans(),
         'final_falsy': st.sampled_from([False, False, True]),
         'final_oneshot': st.sampled_from([False, False, True]),
+        'pending_write_error': st.sampled_from([False, False, True]),
         'reset': st.sampled_from([False, False, True])})
 
 
@@ -494,7 +520,8 @@ def fix_case(c):
         c = dict(c, exc='A')        # write-phase IOError is deferred
     if c['origin'] in ('reaction_status_json', 'hook_raises'):
         c = dict(c, compress=None)
-    if c['origin'] not in ('listener', 'early_listener') or c.get('reset'):
+    if c['origin'] not in ('listener', 'early_listener') or \
+            c.get('reset') or c.get('pending_write_error'):
         # a farewell needs a live play-state session to be sent on
         c = dict(c, chain=[dict(h, do='return') if h['do'] == 'bye' else h
                            for h in c['chain']])
@@ -582,6 +609,12 @@ def t_origins(ctx):
                         'origin': origin, 'exc': 'B', 'chain': chain,
                         'final': final, 'final_new': 'EOFError',
                         'compress': None, 'version': 757, 'reset': True}))
+                    for exc_ in ('B', 'IOError'):
+                        route_case(ctx, fix_case({
+                            'origin': origin, 'exc': exc_, 'chain': chain,
+                            'final': final, 'final_new': 'EOFError',
+                            'compress': None, 'version': 757,
+                            'pending_write_error': True}))
     ctx.exhaustive_done('9 origins x 4 finals x 8 chains x 2 compression '
                         'modes')
 
